@@ -245,6 +245,56 @@ MsgMultiGroup(body) ==
 MsgRepeats(body) ==            \* some placeholder occurs twice
   LET ns == MsgNodes(body) IN \E i, j \in 1..Len(ns) : i < j /\ ns[i].p = ns[j].p
 
+
+(***************************************************************************)
+(* The structural feature of a body that a finding is signed with: what    *)
+(* about the body makes naming non-trivial.  (Classification only; no      *)
+(* verdict depends on it.)                                                 *)
+(***************************************************************************)
+RECURSIVE MsgFlatExpr(_)
+RECURSIVE MsgFlatAcc(_)
+MsgFlatAcc(acc) ==
+  IF acc = <<>> THEN ""
+  ELSE LET a == Head(acc) IN
+       (CASE a.k = "key" -> "." \o a.key
+          [] a.k = "idx" -> "." \o ToString(a.idx)
+          [] OTHER -> "[" \o MsgFlatExpr(a.e) \o "]") \o MsgFlatAcc(Tail(acc))
+\* the expression's tokens without any grouping
+MsgFlatExpr(e) ==
+  CASE e.k = "var" -> "$" \o e.name \o MsgFlatAcc(e.acc)
+    [] e.k = "int" -> ToString(e.v)
+    [] e.k = "global" -> e.name
+    [] e.k \in {"add", "sub", "mul", "div", "mod"} -> MsgFlatExpr(e.a) \o " " \o e.k \o " " \o MsgFlatExpr(e.b)
+    [] OTHER -> "?" \o e.k
+
+MsgGroupingOnly(nodes) ==    \* two distinct prints that differ only in grouping
+  \E i, j \in 1..Len(nodes) :
+     /\ i < j /\ nodes[i].p.k = "print" /\ nodes[j].p.k = "print" /\ nodes[i].p # nodes[j].p
+     /\ nodes[i].p.e.k \in {"add", "sub", "mul", "div", "mod"}
+     /\ nodes[j].p.e.k \in {"add", "sub", "mul", "div", "mod"}
+     /\ MsgFlatExpr(nodes[i].p.e) = MsgFlatExpr(nodes[j].p.e)
+
+\* the identifier a base name is derived from ("" if none)
+MsgBaseIdent(p) ==
+  IF p.k = "tag" THEN ""
+  ELSE IF p.e.k = "global" THEN MsgAfterLastDot(p.e.name)
+  ELSE IF p.e.k = "var" THEN
+         IF Len(p.e.acc) = 0 THEN p.e.name
+         ELSE IF p.e.acc[Len(p.e.acc)].k = "key" THEN p.e.acc[Len(p.e.acc)].key ELSE ""
+  ELSE ""
+
+MsgFeature(body) ==
+  LET ns == MsgNodes(body) IN
+  IF MsgSuffixCollision(body) THEN "suffix-collides-with-base-name"
+  ELSE IF MsgGroupingOnly(ns) THEN "exprs-differ-only-in-grouping"
+  ELSE IF \E i \in 1..Len(ns) : MsgCloseHumps(MsgBaseIdent(ns[i].p)) THEN "identifier-adjacent-word-boundaries"
+  ELSE IF \E i \in 1..Len(ns) : ns[i].p.k = "print" /\ ns[i].p.e.k = "global" /\ MsgLastDot(ns[i].p.e.name, Len(ns[i].p.e.name)) > 0
+       THEN "global-dotted-name"
+  ELSE IF MsgMultiGroup(body) THEN "several-sources-one-base-name"
+  ELSE IF MsgHasPlural(body) THEN "plural"
+  ELSE IF MsgRepeats(body) THEN "repeated-placeholder"
+  ELSE "plain"
+
 (***************************************************************************)
 (* Placeholder string.  braces = TRUE: {NAME}; FALSE: NAME (what the id of *)
 (* a message without plural is computed from).  A plural is always spelled *)
@@ -334,6 +384,73 @@ MsgFamPlural(n) ==
         s \in 1..Len(MsgPluralSubjects), cb \in [1..nc -> bodies], db \in bodies}
     : j \in 1..Len(MsgCaseSets)}
 
+
+(***************************************************************************)
+(* Extra bodies: the vectors pinned by the repository's tests              *)
+(* (TestSetPlaceholders, TestSetPluralVarName, TestBaseName,               *)
+(* TestToUpperUnderscore), the tag table, and cases the pools do not       *)
+(* reach: distinct expressions that differ only in grouping, identifiers   *)
+(* with word boundaries two characters apart, globals.                     *)
+(***************************************************************************)
+MsgP(n)        == MPrint(MsgVar(n))
+MsgPK(n, key)  == MPrint(MsgRef(n, <<MsgKeyAcc(key)>>))
+MsgFn(n, args) == [k |-> "fn", name |-> n, args |-> args]
+MsgGlobal(n)   == [k |-> "global", name |-> n]
+MsgA1          == MsgBin("add", MsgVar("a"), MsgInt(1))
+
+MsgExtraBodies == <<
+  \* 1-2: grouping is part of an expression's identity
+  << MPrint(MsgBin("mul", MsgA1, MsgInt(2))), MPrint(MsgBin("add", MsgVar("a"), MsgBin("mul", MsgInt(1), MsgInt(2)))) >>,
+  << MPrint(MsgBin("add", MsgVar("a"), MsgBin("mul", MsgInt(1), MsgInt(2)))), MText(" "),
+     MPrint(MsgBin("add", MsgVar("a"), MsgBin("mul", MsgInt(1), MsgInt(2)))) >>,
+  << MPrint(MsgBin("sub", MsgVar("a"), MsgBin("sub", MsgVar("b"), MsgVar("x")))),
+     MPrint(MsgBin("sub", MsgBin("sub", MsgVar("a"), MsgVar("b")), MsgVar("x"))) >>,
+  \* 4-8: TestSetPlaceholders
+  << MText("Hello "), MsgP("name") >>,
+  << MsgP("a"), MText(", "), MsgP("b"), MText(", and "), MsgP("c") >>,
+  << MsgP("a"), MText(" "), MsgP("a") >>,
+  << MsgP("a"), MText(" "), MsgPK("b", "a") >>,
+  << MsgPK("a", "a"), MPrint(MsgRef("a", <<MsgKeyAcc("b"), MsgKeyAcc("a")>>)) >>,
+  \* 9-12: html
+  << MText("Click "), MTag("<a>"), MText("here"), MTag("</a>") >>,
+  << MTag("<br>"), MTag("<br/>"), MTag("<br/>") >>,
+  << MTag("<a href=foo>"), MText("Click"), MTag("</a>"), MText(" "), MTag("<a href=bar>"), MText("here"), MTag("</a >") >>,
+  << MTag("<p>"), MText("P1"), MTag("</p>"), MTag("<p>"), MText("P2"), MTag("</p>"), MTag("<p>"), MText("P3"), MTag("</p>") >>,
+  \* 13: the tag table
+  << MTag("<b>"), MTag("</b>"), MTag("<i>"), MTag("<li>"), MTag("<ol>"), MTag("<ul>"), MTag("<img src=x>"),
+     MTag("<em>"), MTag("</em>"), MTag("<span>"), MTag("</span>"), MTag("<A>"), MTag("<br />"), MTag("<div class=y>") >>,
+  \* 14-16: TestSetPluralVarName
+  << MPlural(MsgVar("eggs"), <<MCase(1, <<MText("one")>>)>>, <<MText("other")>>) >>,
+  << MPlural(MsgVar("eggs"), <<MCase(1, <<MText("one")>>)>>, <<MsgP("eggs")>>) >>,
+  << MPlural(MsgFn("length", <<MsgVar("eggs")>>), <<MCase(1, <<MText("one")>>)>>, <<MText("other")>>) >>,
+  \* 17: TestBaseName
+  << MsgP("foo"), MsgPK("foo", "boo"),
+     MPrint(MsgRef("foo", <<MsgKeyAcc("boo"), MsgExprAcc(MsgInt(0)), MsgKeyAcc("zoo")>>)),
+     MPrint(MsgRef("foo", <<MsgKeyAcc("boo"), MsgIdxAcc(0), MsgKeyAcc("zoo")>>)),
+     MPrint(MsgRef("foo", <<MsgExprAcc(MsgInt(0))>>)),
+     MPrint(MsgRef("foo", <<MsgKeyAcc("boo"), MsgExprAcc(MsgInt(0))>>)),
+     MPrint(MsgRef("foo", <<MsgKeyAcc("boo"), MsgIdxAcc(0)>>)),
+     MPrint(MsgBin("add", MsgVar("foo"), MsgInt(1))),
+     MPrint([k |-> "str", v |-> "text"]),
+     MPrint(MsgFn("max", <<MsgInt(1), MsgInt(3)>>)) >>,
+  \* 18-19: TestToUpperUnderscore, as variable names
+  << MsgP("booFoo"), MsgP("boo8Foo"), MsgP("booFoo88"), MsgP("boo88_foo") >>,
+  << MsgP("_booFoo"), MsgP("__BOO__FOO__"), MsgP("Boo_Foo"), MsgP("_boo_8foo"), MsgP("boo_foo8"), MsgP("_BOO__8_FOO_") >>,
+  \* 20: word boundaries two characters apart
+  << MsgP("isOkNow"), MsgP("aBcDe") >>,
+  \* 21: null-safe key access, injected data
+  << MPrint([k |-> "var", name |-> "a", acc |-> <<[k |-> "key", ns |-> TRUE, key |-> "fooBar"]>>]),
+     MPrint(MsgRef("ij", <<MsgKeyAcc("fooBar")>>)) >>,
+  \* 22-23: globals
+  << MPrint(MsgGlobal("GLOB")), MText(" "), MPrint(MsgGlobal("otherGlob")) >>,
+  << MPrint(MsgGlobal("app.glob")) >>,
+  \* 24-25: the suffix collision, smallest forms
+  << PoolC10[1], PoolC10[2], PoolC10[4] >>,
+  << PoolC10[4], PoolC10[1], PoolC10[2] >>
+>>
+
+MsgFamExtra == {[kind |-> "extra", i |-> i] : i \in 1..Len(MsgExtraBodies)}
+
 MsgPick(pool, ix) == [i \in 1..Len(ix) |-> pool[ix[i]]]
 
 \* (the subjects' base names are tabulated once)
@@ -341,6 +458,7 @@ MsgPluralSubjectBases == [i \in 1..Len(MsgPluralSubjects) |-> MsgExprBase(MsgPlu
 
 MsgFamBody(d) ==
   IF d.kind = "flat" THEN MsgPick(PoolC10, d.ix)
+  ELSE IF d.kind = "extra" THEN MsgExtraBodies[d.i]
   ELSE << [k |-> "plural", e |-> MsgPluralSubjects[d.subj],
            cases |-> [i \in 1..Len(d.cb) |-> MCase(MsgCaseSets[d.cs][i], MsgPick(MsgInnerPool, d.cb[i]))],
            dflt |-> MsgPick(MsgInnerPool, d.db),
@@ -352,5 +470,6 @@ RECURSIVE MsgIxStrs(_)
 MsgIxStrs(q) == IF q = <<>> THEN "" ELSE MsgIxStr(Head(q)) \o "/" \o MsgIxStrs(Tail(q))
 MsgFamId(d) ==
   IF d.kind = "flat" THEN "F" \o MsgIxStr(d.ix)
+  ELSE IF d.kind = "extra" THEN "X" \o (IF d.i < 10 THEN "0" ELSE "") \o ToString(d.i)
   ELSE "P" \o ToString(d.subj) \o "c" \o ToString(d.cs) \o ":" \o MsgIxStrs(d.cb) \o "d" \o MsgIxStr(d.db)
 =============================================================================
